@@ -41,7 +41,10 @@ META["C20"] = {
             "contacts only ids somebody mentioned, terminates (32-byte ids), reports as closest a minimum of the contacted / "
             "responding / accepting nodes, returns only validated values from contacted nodes and counts distinct acceptors, with "
             "the error exactly below the minimum. The real DHTFindNode/Join/Get/Put run against simulated networks and their RPC "
-            "sequence and result are compared with the model each run.",
+            "sequence and result are compared with the model each run. The answering side (dht_node.go) is modelled too: FindNode "
+            "answers at most min(limit,10) held peers nearest first, no answer lists the node itself, closer lists are strictly "
+            "closer, Accepted is truthful (readable at once / not stored / never without a data cache), caches stay within their "
+            "sizes; the real DHTNode runs under a fake clock against that model each run.",
     "design_ref": "DESIGN.md section 5 C20",
     "note": _NOTE,
     "technique": "Lean 4 invariant proofs over the dhtIterate loop with an arbitrary responder + differential correspondence on simulated networks",
@@ -152,7 +155,8 @@ META["C14"] = {
     "text": "Partial by design: buffer ownership is proved (a slot lent to a callback is in no other place; a recycled slot shows "
             "exactly the enqueued message; a hub's deliverer stays committed while its message is in a callback). Freedom from data "
             "races under the Go memory model is not expressible in these models and is NOT claimed; a -race contention run is "
-            "reported as exploration in the evidence.",
+            "reported as exploration in the evidence. Above the hubs, every packet the harness hands to fragswarm, mbapp and p2pke "
+            "is in a buffer that is overwritten when the call returns, so a layer that keeps a reference delivers corrupted bytes.",
     "design_ref": "DESIGN.md section 5 C14 and section 6", "note": _HUB_NOTE,
     "technique": "Lean 4 slot-conservation / exclusivity invariants over queue and hub models; contention stress as exploration",
 }
@@ -171,10 +175,17 @@ META["C07"] = {
             "make-before-break for rekey/handshake/incoming terms, keep-alive soundness (authenticated data through the current "
             "session refreshes lastReceived; a session within its keep-alive and reject times is not torn down), convergence of "
             "simultaneous initiation, and establishment within three reliable round trips from fresh channels and after a peer "
-            "restart (after establishment and after the first InitHello). Wall-clock bounds rest on timers firing when due and "
-            "are explored by the real-time oracle cases.",
+            "restart (after establishment and after the first InitHello). With the two timers in the model (KeTimed): in every "
+            "reachable state, for every interleaving and however late callbacks run, a channel with waiting callers has a timer "
+            "armed that acts for them (never_stranded); what the handshake timer retransmits is younger than the time-out; a "
+            "handshake that does not complete is given up and started over; the rekey callback always leaves a driven session; "
+            "establishment through the timers from fresh channels. The real channels run with their real timers under a fake "
+            "clock (testing/synctest) against the timed model event for event, and an oracle tries adversarial prefixes "
+            "(loss, duplication, reordering, restarts, third-party handshakes, arbitrary timing) followed by a reliable network: "
+            "the pending Send must complete within handshakeAttempts+4 backoffs, both sides get in step, traffic flows across "
+            "rekeys. General convergence from arbitrary states is not a theorem.",
     "design_ref": "DESIGN.md section 5 C07 and section 6", "note": _KE_NOTE,
-    "technique": "Lean 4 channel invariants + scenario theorems with symbolic parameters; lock-step correspondence and real-time oracle",
+    "technique": "Lean 4 channel and timer invariants (small-step interleavings) + scenario theorems with symbolic parameters; lock-step and fake-clock correspondence; fake-clock convergence oracle",
 }
 META["C08"] = {
     "text": "Proof: the packet-facing parsers and reassemblers of the repository (string/varint demultiplexers, fragswarm parse and "
